@@ -22,6 +22,7 @@ Missing beyond that: the real collector and finalizer timing, `mmap` address reu
 import Wz.Proofs.C09_Graph
 import Wz.Proofs.C09_Pinned
 import Wz.Gen.Cleanup
+import Wz.Gen.Shapes
 
 namespace Wz.C09
 open Wz.Model.Lifetime
@@ -212,5 +213,12 @@ nil-ed `DataInstances`/`ElementInstances` "to save memory" made `memory.init` in
 memory). -/
 theorem close_releases_only_unreachable_resources :
     Wz.Gen.Cleanup.closedFields = ["m.CloseNotifier", "m.Sys", "mem.expBuffer", "m.CodeCloser"] := by decide
+
+
+/-- **Regenerated obligation** (wazevo/module_engine.go): when a memory grows, the owner's module context is
+refreshed unconditionally - also when the owner is closed: its functions stay callable by instances that imported
+them, and they read base and length from that context. -/
+theorem memory_grown_refreshes_unconditionally :
+    Wz.Gen.Shapes.get "c09.memory_grown" = some "m.putLocalMemory()" := by decide
 
 end Wz.C09
